@@ -207,6 +207,7 @@ pub fn replay_file(path: &str) -> i32 {
         }
         "auth" => crate::auth::replay(&v["replay"]),
         "journal" => crate::journal::replay(&v),
+        "stream" => crate::stream::replay(&v),
         other => {
             eprintln!("replay for engine {other} is handled by its module");
             2
